@@ -34,16 +34,19 @@ E == Rec[l]
 Is(ev) == l <= Len(Rec) /\ E.ev = ev
 Fail(msg) == PrintT(<<"TRACE-FAIL", l, msg>>) /\ FALSE
 Require(cond, msg) == IF cond THEN TRUE ELSE Fail(msg)
-\* Focus C11: the conjuncts that depend on the CONFIGURATION (C04 layout / number-pad gating, C12 helper rules, C02 kind of
-\* suggestion) are enforced for every event after an update-engine call, against the configuration passed to it
+\* Focus C11: the conjuncts that depend on the CONFIGURATION (C04 layout / number-pad gating, C12 helper rules, kind of
+\* suggestion: OnKind) are enforced for every event after an update-engine call, against the configuration passed to it
 \* ("option changes take effect at once, a changed layout switches method and layout")
 \* Focus C04: with all composition helpers off the rules of C12 are plain appending (plus the unconditional ones), so the
 \* text after a key is determined by the value the layout assigns to it - the C12 conjunct then decides C04 for keys
 \* pressed INSIDE a word.
 HelpersOff == cfg.method = "fixed" /\ ~cfg.o.vowel /\ ~cfg.o.chandra /\ ~cfg.o.kar /\ ~cfg.o.reph /\ ~cfg.o.karorder
 On(f) == \/ Focus = f \/ Focus = "ALL"
-         \/ (Focus = "C11" /\ upd /\ f \in {"C04", "C12", "C02"})
+         \/ (Focus = "C11" /\ upd /\ f \in {"C04", "C12"})
          \/ (Focus = "C04" /\ f = "C12" /\ HelpersOff)
+
+\* the kind of suggestion (list-style vs. lonely) follows the suggestion option of the configuration in force
+OnKind == On("C02") \/ (Focus = "C11" /\ upd)
 
 NoCfg == [method |-> "none"]
 Init == l = 1 /\ cfg = NoCfg /\ comp = <<>> /\ lastLen = 0 /\ shown = FALSE /\ ongoing = FALSE /\ upd = FALSE
@@ -83,8 +86,9 @@ Key ==
                 c2 == IF ch = "" THEN comp ELSE Append(comp, ch)
             IN /\ comp' = c2
                /\ Returned(c2)
-               /\ (On("C02") => Require((cfg.sug /\ c2 # <<>>) => (E.kind = "full" /\ (E.rsel < E.len \/ (ch \in PreserveChars /\ E.rsel = E.sel))),
+               /\ (OnKind => Require((cfg.sug /\ c2 # <<>>) => (E.kind = "full" /\ (E.rsel < E.len \/ (ch \in PreserveChars /\ E.rsel = E.sel))),
                                         "C02: phonetic list expected, preselected index inside it (or the echoed byte, F05)"))
+               /\ (OnKind => Require(~cfg.sug => E.kind # "full", "C02/C11: suggestions are off but a list-style suggestion was returned"))
                /\ (On("C06") => Require(E.ongoing = (c2 # <<>>), "C06: session flag does not match the typed characters"))
        ELSE LET val == ValueOf(E.code, E.mod) IN
             IF val = <<>>
@@ -95,8 +99,9 @@ Key ==
             ELSE /\ comp' = E.shown
                  /\ Returned(E.shown)
                  /\ (On("C12") => Require((~cfg.o.karorder /\ NormativeKey(comp, val)) => E.shown \in PropKeySet(comp, val, cfg.o),
-                                          "C12/C13: the composed text is not one the rules allow for this key"))
-                 /\ (On("C02") => Require(cfg.sug => (E.kind = "full" /\ E.rsel < E.len), "C02: fixed list expected, preselected index inside it"))
+                                          "C04/C12/C13: the composed text is not one the layout value and the composition rules allow for this key"))
+                 /\ (OnKind => Require(cfg.sug => (E.kind = "full" /\ E.rsel < E.len), "C02: fixed list expected, preselected index inside it"))
+                 /\ (OnKind => Require(~cfg.sug => E.kind # "full", "C02/C11: suggestions are off but a list-style suggestion was returned"))
                  /\ (On("C06") => Require(IF cfg.o.karorder THEN (E.shown # <<>> => E.ongoing) ELSE E.ongoing = (E.shown # <<>>),
                                           "C06: session flag does not match the composed text"))
     /\ SetLast /\ UNCHANGED <<cfg, upd>> /\ l' = l + 1
